@@ -229,10 +229,36 @@ func ProbeMain(ch *Check, caseFile, outFile string) int {
 	}
 	w := newWorker(r, 0)
 	w.gen = "probe"
-	w.Do(c)
+	w.noSpice = true
+	runWithHistory(ch, w, c)
 	r.merge(w)
 	r.writeReport(true)
 	return 0
+}
+
+// runWithHistory runs one case; when the case carries recorded predecessor
+// calls they are made first (public entry point, results ignored), for up to
+// 50 rounds or until the monitor reports.
+func runWithHistory(ch *Check, w *Worker, c Case) {
+	if len(c.PredQ) == 0 || ch.SpiceCall == nil {
+		w.Do(c)
+		return
+	}
+	var pred []string
+	for _, q := range c.PredQ {
+		if s, err := strconv.Unquote(q); err == nil {
+			pred = append(pred, s)
+		}
+	}
+	for round := 0; round < 50 && len(w.viols) == 0; round++ {
+		for _, s := range pred {
+			func() {
+				defer func() { recover() }()
+				ch.SpiceCall(s)
+			}()
+		}
+		w.Do(c)
+	}
 }
 
 // Drive is the parent: runs the runner child, confirms what it reported in
@@ -320,6 +346,21 @@ func Drive(ch *Check, tier string) int {
 			}
 		}
 		if !found {
+			// No single case kills a fresh process. One class of death is still a
+			// directly observed fact about the library and not about this harness:
+			// the Go runtime's own unrecoverable concurrency faults (unsynchronised
+			// map access, unlock of an unlocked mutex) raised while the faulting
+			// goroutine was executing library code. The runner calls the library
+			// from 16 goroutines, which is exactly the use the README promises is
+			// safe; correct code cannot produce these.
+			if msg, fn := libraryConcurrencyFatal(logf); msg != "" {
+				confirmed = append(confirmed, Violation{Property: ch.ID, Kind: "fatal-concurrent", Confirmed: true,
+					Case:   Case{Desc: "not reproducible from one input; faulting library function: " + fn},
+					Detail: "the runner process (16 goroutines calling the library) was killed by the Go runtime: fatal error: " + msg + "\nfaulting goroutine was inside " + fn + "\n" + tail()})
+				found = true
+			}
+		}
+		if !found {
 			fmt.Printf("BROKEN-CHECK property=%s runner died (%v) and no journalled case reproduces it; log:\n%s\n", ch.ID, runErr, tail())
 			writeEvidence(env, ch, &rep, tier, time.Since(start).Seconds(), 0, map[string]interface{}{"broken": "runner died: " + fmt.Sprint(runErr)})
 			return 2
@@ -352,11 +393,29 @@ func Drive(ch *Check, tier string) int {
 		if ch.ProbeBudget > 0 {
 			budget = ch.ProbeBudget
 		}
-		pr := probe(env, ch, v.Case, fmt.Sprintf("v%d", len(seen)), budget)
+		lone := v.Case
+		lone.PredQ = nil
+		pr := probe(env, ch, lone, fmt.Sprintf("v%d", len(seen)), budget)
 		ok := pr.died || pr.timedOut
 		for _, pv := range pr.viols {
 			if pv.Kind == v.Kind {
 				ok = true
+			}
+		}
+		if ok {
+			v.Case.PredQ = nil
+		} else if ch.SpiceCall != nil && len(v.Case.PredQ) > 0 {
+			// not a function of this input alone: probe again in a fresh process
+			// after the calls the worker had made just before
+			pr = probe(env, ch, v.Case, fmt.Sprintf("v%dh", len(seen)), budget)
+			for _, pv := range pr.viols {
+				if pv.Kind == v.Kind {
+					ok = true
+				}
+			}
+			if ok {
+				v.Kind += "-after-history"
+				v.Detail = "a lone call in a fresh process does not show this; it shows in a fresh process after the " + strconv.Itoa(len(v.Case.PredQ)) + " calls the worker had made just before (recorded in the replay file): the answer depends on earlier calls\n" + v.Detail
 			}
 		}
 		if ok {
@@ -487,6 +546,13 @@ func ReplayMain(lookup func(id string) *Check, path string) int {
 	if v.Case.S != "" {
 		fmt.Printf("s=%s\n", trunc(strconv.Quote(v.Case.S), 2000))
 	}
+	if v.Confirmed {
+		// observed directly in the workload (history or concurrency dependent);
+		// a single call in this process cannot show it again
+		fmt.Println("this violation depends on the call history or on concurrent calls; recorded observation:")
+		fmt.Println(v.Detail)
+		return 1
+	}
 	if ch.Custom != nil && ch.One == nil {
 		fmt.Println("this property has no single-case replay; recorded detail:")
 		fmt.Println(v.Detail)
@@ -510,7 +576,11 @@ func ReplayMain(lookup func(id string) *Check, path string) int {
 		setMaxStack(ch.MaxStack)
 	}
 	w := newWorker(r, 0)
-	w.Do(v.Case)
+	w.noSpice = true
+	if len(v.Case.PredQ) > 0 {
+		fmt.Printf("the recorded violation showed only after %d earlier calls by the same worker; they are made first (up to 50 rounds)\n", len(v.Case.PredQ))
+	}
+	runWithHistory(ch, w, v.Case)
 	if len(w.viols) == 0 {
 		fmt.Println("NOT-REPRODUCED: the monitor accepts this case on the current tree")
 		return 0
@@ -519,4 +589,53 @@ func ReplayMain(lookup func(id string) *Check, path string) int {
 		fmt.Printf("REPRODUCED kind=%s\n%s\n", x.Kind, x.Detail)
 	}
 	return 1
+}
+
+// libraryConcurrencyFatal inspects a dead runner's log. It returns the fatal
+// message and the faulting library function when the process was killed by one
+// of the Go runtime's unrecoverable concurrency faults and the first
+// non-runtime frame of the faulting goroutine belongs to the library package.
+func libraryConcurrencyFatal(logf string) (string, string) {
+	b, err := os.ReadFile(logf)
+	if err != nil {
+		return "", ""
+	}
+	lines := strings.Split(string(b), "\n")
+	msg := ""
+	for i, l := range lines {
+		if msg == "" {
+			if strings.HasPrefix(l, "fatal error: ") {
+				m := strings.TrimPrefix(l, "fatal error: ")
+				if strings.HasPrefix(m, "concurrent map ") || strings.HasPrefix(m, "sync: ") {
+					msg = m
+				} else {
+					return "", ""
+				}
+			}
+			continue
+		}
+		if strings.HasPrefix(l, "goroutine ") && strings.HasSuffix(l, "[running]:") {
+			for _, f := range lines[i+1:] {
+				if f == "" {
+					break
+				}
+				if strings.HasPrefix(f, "\t") || strings.HasPrefix(f, "runtime.") || strings.HasPrefix(f, "sync.") || strings.HasPrefix(f, "internal/") {
+					continue
+				}
+				if strings.HasPrefix(f, "github.com/corazawaf/libinjection-go.") {
+					if k := strings.Index(f, "("); k > 0 {
+						// keep "(*T).method" intact: cut at the argument list
+						if j := strings.LastIndex(f, "("); j > 0 {
+							k = j
+						}
+						return msg, f[:k]
+					}
+					return msg, f
+				}
+				return "", ""
+			}
+			return "", ""
+		}
+	}
+	return "", ""
 }
